@@ -4,6 +4,8 @@ use vstd::prelude::*;
 use crate::verif_spec::*;
 use crate::verif_extern::*;
 use crate::spec_poly1305::*;
+use crate::spec_hash::*;
+use crate::spec_curve::*;
 
 verus! {
 
@@ -51,6 +53,25 @@ pub proof fn lemma_xs_xor_involutive(m: Seq<u8>, k: Seq<u8>, n: Seq<u8>, off: in
         let b = xsalsa20_stream(k, n, off + i);
         assert((a ^ b) ^ b == a) by (bit_vector);
     }
+}
+
+} // verus!
+
+verus! {
+
+/// crypto_box precomputation: HSalsa20(X25519(sk, pk), 0^16)
+pub open spec fn box_key(pk: Seq<u8>, sk: Seq<u8>) -> Seq<u8> {
+    hsalsa20_spec(x25519(sk, pk), zeros(16), None)
+}
+
+/// sealed-box nonce: BLAKE2b-24(epk || rpk), unkeyed, no salt / personal
+pub open spec fn seal_nonce(epk: Seq<u8>, rpk: Seq<u8>) -> Seq<u8> {
+    blake2b_spec(24, Seq::<u8>::empty(), zeros(16), zeros(16), epk + rpk)
+}
+
+/// sealed box made with ephemeral secret key esk: epk || box(m, nonce, rpk, esk)
+pub open spec fn sealed_box(m: Seq<u8>, rpk: Seq<u8>, esk: Seq<u8>) -> Seq<u8> {
+    x25519_base(esk) + secretbox_easy(box_key(rpk, esk), seal_nonce(x25519_base(esk), rpk), m)
 }
 
 } // verus!
